@@ -1225,11 +1225,19 @@ static void array_initializer2(Token **rest, Token *tok, Initializer *init, int 
   *rest = tok;
 }
 
+// Unnamed bit-fields do not take part in initialization (C11 6.7.9p9).
+// Returns `mem` or the first member after it that an initializer can go to.
+static Member *skip_unnamed_bitfields(Member *mem) {
+  while (mem && mem->is_bitfield && !mem->name)
+    mem = mem->next;
+  return mem;
+}
+
 // struct-initializer1 = "{" initializer ("," initializer)* ","? "}"
 static void struct_initializer1(Token **rest, Token *tok, Initializer *init) {
   tok = skip(tok, "{");
 
-  Member *mem = init->ty->members;
+  Member *mem = skip_unnamed_bitfields(init->ty->members);
   bool first = true;
 
   while (!consume_end(rest, tok)) {
@@ -1240,13 +1248,13 @@ static void struct_initializer1(Token **rest, Token *tok, Initializer *init) {
     if (equal(tok, ".")) {
       mem = struct_designator(&tok, tok, init->ty);
       designation(&tok, tok, init->children[mem->idx]);
-      mem = mem->next;
+      mem = skip_unnamed_bitfields(mem->next);
       continue;
     }
 
     if (mem) {
       initializer2(&tok, tok, init->children[mem->idx]);
-      mem = mem->next;
+      mem = skip_unnamed_bitfields(mem->next);
     } else {
       tok = skip_excess_element(tok);
     }
@@ -1258,7 +1266,8 @@ static void struct_initializer2(Token **rest, Token *tok, Initializer *init, Mem
   // When resuming after a designated member, a comma comes first.
   bool first = (mem == init->ty->members);
 
-  for (; mem && !is_end(tok); mem = mem->next) {
+  for (mem = skip_unnamed_bitfields(mem); mem && !is_end(tok);
+       mem = skip_unnamed_bitfields(mem->next)) {
     Token *start = tok;
 
     if (!first)
@@ -1280,7 +1289,8 @@ static void union_initializer(Token **rest, Token *tok, Initializer *init) {
   // and that initializes the first union member by default.
   // You can initialize other member using a designated initializer.
   // A braced list may name several members; the last one wins.
-  if (!init->ty->members)
+  Member *first_mem = skip_unnamed_bitfields(init->ty->members);
+  if (!first_mem)
     error_tok(tok, "initializer for a union that has no members");
 
   if (equal(tok, "{")) {
@@ -1296,8 +1306,8 @@ static void union_initializer(Token **rest, Token *tok, Initializer *init) {
         init->mem = mem;
         designation(&tok, tok, init->children[mem->idx]);
       } else if (first) {
-        init->mem = init->ty->members;
-        initializer2(&tok, tok, init->children[0]);
+        init->mem = first_mem;
+        initializer2(&tok, tok, init->children[first_mem->idx]);
       } else {
         tok = skip_excess_element(tok);
       }
@@ -1306,8 +1316,8 @@ static void union_initializer(Token **rest, Token *tok, Initializer *init) {
     return;
   }
 
-  init->mem = init->ty->members;
-  initializer2(rest, tok, init->children[0]);
+  init->mem = first_mem;
+  initializer2(rest, tok, init->children[first_mem->idx]);
 }
 
 // initializer = string-initializer | array-initializer
